@@ -54,6 +54,23 @@ def run(ctx, escalated=False):
                            "returned": r["ret"], "entry": r["entry"], "options": r["options"]}, [], [],
                           r["mon"]["C06"][:3], True))
         ctx.count("conductor-shared-script-names")
+    # a restart command that is nothing but a parameter: empty for the first combination, a command for
+    # the later ones - the limit asked for bounds those (seeded change C06-p let the first, empty,
+    # expansion switch the limit off for the rest of the step)
+    tok = {"description": {"name": "tok", "description": "restart given by a parameter"},
+           "global.parameters": {"R": {"values": ["", "again --now", "again"], "label": "R.%%"},
+                                 "N": {"values": [1, 2, 3], "label": "N.%%"}},
+           "study": [{"name": "sim", "description": "d", "run": {"cmd": "sim $(N)", "restart": "$(R)"}},
+                     {"name": "post", "description": "d", "run": {"cmd": "post $(N)", "depends": ["sim"]}}]}
+    for k in range(6 if quick else 60):
+        r = condsim.run(ctx, ctx.rng, "tok%d" % k, entry=("direct", "fg", "bg")[k % 3], timeouts=0.9, max_polls=60,
+                        force={"rlimit": ctx.rng.choice([1, 2]), "use_tmp": False, "hash_ws": False}, spec=tok)
+        if r is None:
+            continue
+        extra.append(Case({"kind": "conductor-restart-from-a-parameter", "spec": r["spec"], "polls": r["polls"],
+                           "returned": r["ret"], "entry": r["entry"], "options": r["options"]}, [], [],
+                          r["mon"]["C06"][:3], True))
+        ctx.count("conductor-restart-from-a-parameter")
     import scripted as S
     S.install()
     cases = cases + extra
